@@ -1,4 +1,5 @@
 import IpcModel.Lemmas.ShmProof
+import IpcModel.Lemmas.ShmMany
 import IpcModel.Props.C15
 /-!
 # C05 — shared-memory regions arrive with identical contents
@@ -62,6 +63,41 @@ theorem C05_zero_reads_empty (ops : List Op) (i : Nat) (h : Handle)
     | some a => simp [hptr] at hp
   exact ⟨hp0, by simpa using hlen, by simp [deref, hp0]⟩
 
+/-- **C05_many_in_order** — several regions in one message: after any history (with nothing else in flight), putting the
+descriptors of the live regions `ps` (index, bytes it stems from) in flight and receiving as many descriptors yields
+exactly `ps.length` new handles, in the order of the regions in the message, each reading exactly its own region's bytes
+with its own length (clones of one region, zero-length regions and repeated indices included). -/
+theorem C05_many_in_order (ops : List Op) (ps : List (Nat × List Nat)) (hnf : (run ops).flight = [])
+    (hlive : ∀ p ∈ ps, ∃ h, (run ops).hs[p.1]? = some (some (h, p.2))) :
+    let ops' := ops ++ ps.map flightOf ++ List.replicate ps.length Op.recvFlight
+    (run ops').hs.length = (run ops).hs.length + ps.length ∧ (run ops').flight = [] ∧
+    ∀ k p, ps[k]? = some p → ∃ h', (run ops').hs[(run ops).hs.length + k]? = some (some (h', p.2)) ∧
+      deref (run ops').k h' = .bytes p.2 ∧ h'.length = p.2.length := by
+  intro ops'
+  obtain ⟨fl, hfl, hA⟩ := flights_spec ps (run ops) (inv_run ops size_is_length) hlive
+  have hlen : fl.length = ps.length := by simpa using congrArg List.length hfl
+  have hrunA : run (ops ++ ps.map flightOf) = ⟨(run ops).k, (run ops).hs, fl⟩ := by
+    simp only [run, List.foldl_append] at hA ⊢
+    rw [hA]; simp only [run] at hnf; rw [hnf]; rfl
+  obtain ⟨nw, hnw, hhs, hflt⟩ := recvs_spec fl (run (ops ++ ps.map flightOf)) (by rw [hrunA])
+  have hrun' : run ops' = (List.replicate fl.length Op.recvFlight).foldl step (run (ops ++ ps.map flightOf)) := by
+    simp only [ops', run, List.foldl_append, hlen]
+  have hnwlen : nw.length = ps.length := by
+    have := congrArg List.length hnw; simp at this; omega
+  have hhs' : (run ops').hs = (run ops).hs ++ nw.map some := by rw [hrun', hhs, hrunA]
+  refine ⟨by rw [hhs']; simp [hnwlen], by rw [hrun']; exact hflt, ?_⟩
+  intro k p hk
+  have hklt : k < nw.length := by
+    rw [hnwlen]; exact (List.getElem?_eq_some_iff.mp hk).1
+  have hsnd : (nw[k]).2 = p.2 := by
+    have h1 : (nw.map Prod.snd)[k]? = (ps.map Prod.snd)[k]? := by rw [hnw, hfl]
+    simp only [List.getElem?_map, hk, List.getElem?_eq_getElem hklt, Option.map_some] at h1
+    exact Option.some.inj h1
+  have hget : (run ops').hs[(run ops).hs.length + k]? = some (some ((nw[k]).1, p.2)) := by
+    rw [hhs', List.getElem?_append_right (Nat.le_add_right _ _), Nat.add_sub_cancel_left,
+      List.getElem?_map, List.getElem?_eq_getElem hklt, Option.map_some, ← hsnd]
+  exact ⟨(nw[k]).1, hget, C05_contents ops' _ _ _ hget⟩
+
 /-- **C05_order** — several regions in one message arrive in order, after the channels and before the dedicated socket
 (descriptor order of the message; proved in the control-message model). -/
 theorem C05_order (sys len : Nat) (faults : List Frag.Fault) (chans shms : List Cmsg.Fd) (ded : Cmsg.Fd)
@@ -84,5 +120,16 @@ example : (run demo).k.calls = [.create 3, .mmap 3, .create 0, .dup, .mmap 3, .m
 /-! sensitivity: if the memory object were larger than the requested length (say rounded up), the receiving side —
 which sizes its mapping with `fstat` — would report the object's size, not the region's -/
 example : (mapFile ⟨upd (fun _ => none) 0 (some [1, 2, 3, 0]), 1, fun _ => none, fun _ => none, 0, []⟩ 0 none).2.2 = 4 := by decide
+
+/-! non-vacuity of `C05_many_in_order`: three regions (one empty, one a clone) in one message after the demo history -/
+def demo2 : List Op := [.fromBytes [1, 2, 3], .fromBytes [], .fromBytes [9, 8], .clone 0]
+example : (run demo2).flight = [] ∧ (∀ p ∈ [(2, [9, 8]), (1, []), (3, [1, 2, 3])], ∃ h, (run demo2).hs[p.1]? = some (some (h, p.2))) := by
+  refine ⟨by decide, ?_⟩
+  intro p hp
+  simp only [List.mem_cons, List.not_mem_nil, or_false] at hp
+  rcases hp with rfl | rfl | rfl
+  · exact ⟨⟨some 4, 2, 3⟩, by decide⟩
+  · exact ⟨⟨none, 0, 2⟩, by decide⟩
+  · exact ⟨⟨some 6, 3, 5⟩, by decide⟩
 
 end C05
